@@ -336,6 +336,24 @@ def frame(chk, F):
             entry["order"] = [n for _, n in sorted(seq)]
             rs = H.method_calls(body, "resize")
             entry["resize_to_len"] = bool(rs) and "len" in H.expr_str(rs[0]["args"][0])
+            # every frame whose prefix was read is consumed whole: between the two reads there is no way out of the function
+            # (a `?`, return or break that is not the `?` of the reads themselves) - a reader that gives up after the prefix
+            # leaves the payload in the pipe and refuses frames the writer can produce
+            reads = sorted([m["line"] for m in H.method_calls(body, "read_exact")] + [c["line"] for c in H.path_calls(body, "Read::read_exact")])
+            exits = []
+            if len(reads) == 2:
+                for kind, st in H.stmts_of(body):
+                    e0 = st.get("init") if kind == "let" else st
+                    if e0 is None:
+                        continue
+                    has_read = bool(H.method_calls(e0, "read_exact")) or bool(H.path_calls(e0, "Read::read_exact"))
+                    line = st.get("line", e0.get("line", 0))
+                    if has_read or not (reads[0] < line <= reads[1]):
+                        continue
+                    for x in hir_walk(e0):
+                        if x.get("k") in ("Try", "Ret", "Break"):
+                            exits.append((x["k"], x.get("line")))
+            entry["exits_between_reads"] = exits
         else:
             seq = [(m["line"], m["name"]) for m in H.method_calls(body) if m["name"] in ("write_all", "flush")] + \
                   [(c["line"], "serialize") for c in H.path_calls(body, "serialize")]
@@ -352,6 +370,10 @@ def frame(chk, F):
         chk.decide(e["prefix_bytes"] == size.get(e["width"]), "frame-agreement", FK, r + ":prefix-bytes", "sandbox/src/frame.rs",
                    "%s reads %s prefix bytes for a %s" % (r, e["prefix_bytes"], e["width"]),
                    "%s reads %s prefix bytes for a %s length" % (r, e["prefix_bytes"], e["width"]))
+        chk.decide(not e.get("exits_between_reads"), "frame-agreement", FK, r + ":whole-frame-consumed", "sandbox/src/frame.rs",
+                   "%s: once the length prefix is read nothing can leave the function before the payload read" % r,
+                   "%s can give up between the length prefix and the payload (%s): the payload stays in the pipe and a frame the writer can "
+                   "produce is refused" % (r, e.get("exits_between_reads")))
         chk.decide(e["order"] == ["read_exact", "resize", "read_exact", "deserialize"] and e["resize_to_len"], "frame-agreement", FK, r + ":order", "sandbox/src/frame.rs",
                    "%s: prefix, resize buffer to exactly len, body, deserialize" % r, "%s order is %s" % (r, e["order"]))
     for w in ("write_async", "write_sync"):
